@@ -400,7 +400,7 @@ TABLE['C15'] = dict(
     ])
 
 TABLE['C16'] = dict(
-    imports=[A + 'DriverPath', A + 'MutConfig', A + 'MutConfigNonneg', A + 'MutConfigBridge'],
+    imports=[A + 'DriverPath', A + 'MutConfig', A + 'MutConfigNonneg', A + 'MutConfigBridge', A + 'MutConfigBridge2'],
     summary='Proved exactly over any field, unbounded n: the matrix the code inverts, sum of P_i = P_total, words of length m sum to '
             'P_total^m and regroup by configuration through distinct orderings, total mass of <= M mutations = 1 - alpha P_total^(M+1) 1, '
             'empty configuration = resolvent form of the Laplace transform, expected counts = theta times expected SFS, first-step '
@@ -438,6 +438,10 @@ TABLE['C16'] = dict(
         ('code_total_mass', 'PG.C16_code_total_mass_in_unit_interval', 'the values returned for all configurations with at most M mutations sum to a number in [0, 1]'),
         ('generator_signs', 'PG.transient_block_row_sum_nonpos', 'the transient block of the code generator has non-positive row sums (and non-negative off-diagonals: generator_offdiag_nonneg)'),
         ('transient_reward_pos', 'PG.transient_total_reward_pos', 'every non-absorbing block-counting state carries total branch-length reward >= 2'),
+        ('code_prob_total', 'PG.C16_code_prob_total', 'TOTAL on the code model: mutConfigProb RETURNS a value (the certified Gauss-Jordan inverse cannot take its singular branch) and it lies in [0, 1] - valid model and epoch, n >= 2, theta > 0, nothing else'),
+        ('code_prob_folded', 'PG.C16_code_prob_total_folded', 'the same for the folded path (rewards foldedSFS_i, n/2 bins)'),
+        ('gauss_jordan_succeeds', 'PG.RMat.inv_spec_of_det_ne_zero', 'the executable Gauss-Jordan routine (pivot search, swap, scale, eliminate; loop invariant Left = Right * A with injective left block) returns the two-sided inverse of every well-shaped matrix with non-zero determinant'),
+        ('getP_defined_iff', 'PG.getP_isSome_iff', 'getP returns a value exactly when the matrix the code inverts is invertible'),
     ])
 
 TABLE['C17'] = dict(
